@@ -93,6 +93,19 @@ def jsonable(x):
     return repr(x)
 
 
+def shrink(x, maxlen=16):
+    """Samples are for a reader of the evidence file: long lists are abbreviated (replay files keep everything)."""
+    if isinstance(x, list):
+        if len(x) > maxlen:
+            return [shrink(y, maxlen) for y in x[:maxlen // 2]] + [f"... {len(x) - maxlen // 2} more elements ..."]
+        return [shrink(y, maxlen) for y in x]
+    if isinstance(x, dict):
+        return {k: shrink(v, maxlen) for k, v in x.items()}
+    if isinstance(x, str) and len(x) > 300:
+        return x[:150] + f"... ({len(x)} characters)"
+    return x
+
+
 class Rec:
     """Per-shard recorder. Counts are measured, never assumed."""
 
@@ -139,7 +152,7 @@ class Rec:
 
     def sample(self, case, every=1):
         if len(self.samples) < 2:
-            self.samples.append(jsonable(case))
+            self.samples.append(shrink(jsonable(case)))
 
     # -- violations ---------------------------------------------------
     def violation(self, op, clause, case, detail="", cls=None):
